@@ -52,7 +52,7 @@ type FailCase struct {
 	StaleCache bool `json:"stale_cache,omitempty"`
 }
 
-var failNames = []string{"alpha", "Alpha", "bravo", "ALPHA"} // task names are case-sensitive: three different tasks share their letters
+var failNames = []string{"alpha", "Alpha", "alpha_all", "ALPHA"} // task names are case-sensitive: three tasks share their letters, and one name is the beginning of another
 var failStatuses = []int{1, 2, 3, 42, 126, 127, 255}
 var failFlagSets = [][]string{nil, {"--quiet"}, {"--json"}, {"--force"}, {"--quiet", "--force"}, {"--json", "--force"}, {"--quiet", "--json"}, {"--json", "--quiet", "--force"}}
 
@@ -86,6 +86,10 @@ func genFailBody(t *rapid.T) FailCase {
 			st := 0
 			if rapid.IntRange(0, 3).Draw(t, "fails") == 3 {
 				st = rapid.SampledFrom(failStatuses).Draw(t, "status")
+				anyFail = true
+			}
+			if st == 0 && rapid.IntRange(0, 14).Draw(t, "unrunnable") == 0 {
+				st = -1 // a line that is not valid shell, in a task that may not have failed at all
 				anyFail = true
 			}
 			ft.Cmds = append(ft.Cmds, st)
